@@ -19,7 +19,7 @@ from .common import COMPONENTS_BASE, run_sim, new_sim, finish_outcome
 
 PID = "C10"
 LEVEL = "exploration"
-BUDGET = {"quick": 30000, "thorough": 800000}
+BUDGET = {"quick": 150000, "thorough": 3000000}
 RULE = (
     "each run draws maxsize in {None,-1,0,1..5,default}, typed, decorator form (bare, (), maxsize=, "
     "functools-style positional, cache), binding (function, method on two instances, classmethod, "
